@@ -149,6 +149,8 @@ class ShapeInterp:
                 return T(v.shape[:-2] + (v.shape[-1], v.shape[-2]))
             if isinstance(v, T) and e.attr == "ndim":
                 return len(v.shape)
+            if isinstance(v, T) and e.attr in ("dtype", "device"):
+                return "<%s>" % e.attr
             raise Uninterpretable("attribute %s" % ast.unparse(e))
         if isinstance(e, ast.Subscript):
             v = self.ev(e.value)
@@ -272,8 +274,30 @@ class ShapeInterp:
                 if m == "permute":
                     axes = [norm_axis(self.const_int(a), len(sh)) for a in c.args]
                     return T([sh[a] for a in axes])
-                if m in ("contiguous", "clone", "detach"):
+                if m in ("contiguous", "clone", "detach", "abs", "long", "float", "double", "conj", "exp", "log", "sqrt", "to", "type"):
                     return recv
+                if m in ("new_empty", "new_zeros", "new_ones", "new_full") and c.args:
+                    shp = self.ev(c.args[0])
+                    if isinstance(shp, (tuple, list)):
+                        return T(tuple(shp))
+                    dims = self.args_of(c)
+                    return T(tuple(dims[:-1] if m == "new_full" else dims))
+                if m == "expand" and c.args:
+                    dims = self.args_of(c)
+                    if len(dims) == 1 and isinstance(dims[0], (tuple, list)):
+                        dims = list(dims[0])
+                    if len(dims) < len(sh):
+                        raise ShapeError("expand to fewer dimensions (%s -> %s)" % (sh, dims))
+                    pad = (1,) * (len(dims) - len(sh)) + tuple(sh)
+                    out_ = []
+                    for want, have in zip(dims, pad):
+                        if want == -1:
+                            out_.append(have)
+                        elif have == 1 or have == want:
+                            out_.append(want)
+                        else:
+                            raise ShapeError("expand of size %r to %r" % (have, want))
+                    return T(tuple(out_))
                 if m == "repeat_interleave":
                     rep = self.kw(c, "repeats", 0)
                     dm = self.kw(c, "dim", 1)
@@ -335,6 +359,22 @@ class ShapeInterp:
                 if len(a.shape) < 2 or a.shape[-1] != a.shape[-2]:
                     raise ShapeError("solve with a non-square matrix %s" % (a.shape,))
                 return T(matmul_shape(a.shape, b.shape))
+        last = fn.split(".")[-1]
+        if fn.startswith("torch.") and last in ("empty", "zeros", "ones", "rand", "randn", "full") and c.args:
+            shp = self.ev(c.args[0])
+            if isinstance(shp, (tuple, list)):
+                return T(tuple(shp))
+            dims = [self.ev(a) for a in c.args if not isinstance(a, ast.Starred)]
+            if last == "full":
+                dims = dims[:-1]
+            if all(isinstance(d, (int, str)) for d in dims):
+                return T(tuple(dims))
+        if fn.startswith("torch.") and last in ("empty_like", "zeros_like", "ones_like", "rand_like", "randn_like", "full_like") and c.args:
+            v = self.ev(c.args[0])
+            if isinstance(v, T):
+                return v
+        if fn == "float" and len(c.args) == 1:
+            return 1.0
         if fn == "list" and len(c.args) == 1:
             return tuple(self.ev(c.args[0]))
         if fn == "len" and len(c.args) == 1:
